@@ -185,6 +185,14 @@ func zzC15Eval(st *zzC15St, ns []zzC15Node) bool {
 			for ; 0 < n; n-- {
 				st.out = append(st.out, '~')
 			}
+		case '|':
+			n, ok := st.param(nd)
+			if !ok {
+				n = 1
+			}
+			for ; 0 < n; n-- {
+				st.out = append(st.out, '\f')
+			}
 		case '*':
 			n, ok := st.param(nd)
 			switch {
@@ -704,16 +712,15 @@ func VerifC15Case(mode, src, n int) {
 			}
 		}
 		capit := mode == 1 || mode == 2
-		vrt.Carve("C15-case-first-word-after-space", mode == 2 && lead)
-		vrt.Carve("C15-case-word-boundaries", capit && (digitWord || apos) && !(mode == 2 && lead))
+		vrt.Carve("C15-case-capitalize", capit && (digitWord || apos || (mode == 2 && lead)))
 	}
 	zzC15Check(prog, args, "~(")
 }
 
-// VerifC15Simple: ~% ~& ~~ (dir 0/1/2) after a prefix (pre 0 "", 1 "ab",
+// VerifC15Simple: ~% ~& ~~ ~| (dir 0/1/2/3) after a prefix (pre 0 "", 1 "ab",
 // 2 "ab\n") with the count omitted / literal / v / # (pm), symbolic 0..5.
 func VerifC15Simple(dir, pm, pre int) {
-	nd := zzC15Node{kind: "%&~"[dir], pm: pm}
+	nd := zzC15Node{kind: "%&~|"[dir], pm: pm}
 	var args slip.List
 	count := 1
 	switch pm {
@@ -732,4 +739,39 @@ func VerifC15Simple(dir, pm, pre int) {
 	prog := []zzC15Node{zzC15L(prefix[pre]), nd, zzC15L("z")}
 	vrt.Carve("C15-fresh-line-at-start", dir == 1 && pre == 0 && 0 < count)
 	zzC15Check(prog, args, "~% ~& ~~")
+}
+
+// VerifC15Newline: "a~<newline>  b" (mode 0: newline and the following white
+// space are ignored), "~:<newline>" (mode 1: only the newline is ignored),
+// "~@<newline>" (mode 2: the newline stays, the white space is ignored); nsp
+// blanks after the newline, then a symbolic printable non-blank byte.
+// CLHS 22.3.9.3.
+func VerifC15Newline(mode, nsp int) {
+	b := zzC15Printable("next")
+	vrt.Assume(b != ' ' && b != '~')
+	ctrl := []byte{'a', '~'}
+	want := []byte{'a'}
+	switch mode {
+	case 1:
+		ctrl = append(ctrl, ':')
+	case 2:
+		ctrl = append(ctrl, '@')
+		want = append(want, '\n')
+	}
+	ctrl = append(ctrl, '\n')
+	for i := 0; i < nsp; i++ {
+		ctrl = append(ctrl, ' ')
+		if mode == 1 {
+			want = append(want, ' ')
+		}
+	}
+	ctrl = append(ctrl, b, '~', 'D')
+	want = append(want, b)
+	a := zzC15Digit("a0")
+	got := zzC15Process(slip.NewScope(), ctrl, slip.List{a})
+	want = append(want, byte('0'+int64(a.(slip.Fixnum))))
+	vrt.Reach("compared")
+	vrt.Assert(got.class == 0, "~newline signalled a condition")
+	vrt.Assert(got.pos == 1, "~newline: arguments consumed")
+	vrt.Assert(zzC15Same(got.text, want), "~newline text")
 }
